@@ -261,9 +261,207 @@ def translate(repo):
                  "guard": guard, "clear_keeps": keep, "concat_fixed": concat_fixed, "skip_ref": skip_ref}
 
 
+# ------------------------------------------------------------------------------------------- reads of constant values
+# Every place of _constant_folding.py that reads the constant value of an ir.Value, enumerated fail-closed: attribute reads
+# `.const_value` and calls of the accessors below.  Each site is classified by HOW the read is kept away from the default of an
+# initializer that is also a graph input (an overridable default); a read that fits none of the classes is unguarded and needs an
+# entry in CONST_READ_REASONS (why the read cannot bake a default in), else the generated obligation all_const_reads_guarded fails.
+CONST_ACCESSORS = ("_get_numpy_value", "get_constant_value")
+# accessors built on the accessors above (their own body is classified like every other function; calls of them need no entry)
+GUARD_CLASSES = ("via-_get_numpy_value", "via-guarded-local-wrapper", "behind-is_graph_input-return",
+                 "dominated-by-_get_numpy_value-not-None", "after-graph-input-early-return")
+# (qualified function, source text of the statement) -> reason; nothing in the current source needs one
+CONST_READ_REASONS: dict = {}
+
+
+def _parents(tree):
+    par = {}
+    for p in ast.walk(tree):
+        for c in ast.iter_child_nodes(p):
+            par[c] = p
+    return par
+
+
+def _is_guard_if(st, var=None):
+    """`if <var>.is_graph_input(): return None` (a statement of a function body)"""
+    if not (isinstance(st, ast.If) and isinstance(st.test, ast.Call) and isinstance(st.test.func, ast.Attribute)
+            and st.test.func.attr == "is_graph_input" and isinstance(st.test.func.value, ast.Name) and not st.test.args and not st.orelse):
+        return False
+    if var is not None and st.test.func.value.id != var:
+        return False
+    body = [s for s in st.body if not (isinstance(s, ast.Expr) and isinstance(s.value, ast.Constant))]
+    return len(body) == 1 and isinstance(body[0], ast.Return) and (body[0].value is None or (isinstance(body[0].value, ast.Constant) and body[0].value.value is None))
+
+
+def const_read_sites(tree):
+    """-> (sites, numpy_value_guard_ok) ; sites = [(lineno, function, kind, class-or-'', statement text)]"""
+    par = _parents(tree)
+
+    def chain(n):
+        res = []
+        while n in par:
+            n = par[n]
+            res.append(n)
+        return res
+
+    def qual(n):
+        return ".".join(reversed([a.name for a in chain(n) if isinstance(a, (ast.FunctionDef, ast.AsyncFunctionDef, ast.ClassDef))]))
+
+    def stmt_of(n):
+        while n in par and not isinstance(n, ast.stmt):
+            n = par[n]
+        return n
+
+    def func_of(n):
+        return next((a for a in chain(n) if isinstance(a, (ast.FunctionDef, ast.AsyncFunctionDef, ast.Lambda))), None)
+
+    # _get_numpy_value: `if val.is_graph_input(): return None` is a top-level statement that precedes the first read of val.const_value
+    gnv = next((n for n in tree.body if isinstance(n, ast.FunctionDef) and n.name == "_get_numpy_value"), None)
+    if gnv is None or not gnv.args.args:
+        raise Untranslatable("_get_numpy_value not found")
+    gvar = gnv.args.args[0].arg
+    greads = sorted(x.lineno for x in ast.walk(gnv) if isinstance(x, ast.Attribute) and x.attr == "const_value" and isinstance(x.ctx, ast.Load))
+    gguards = [s.lineno for s in gnv.body if _is_guard_if(s, gvar)]
+    rebinds = [x for x in ast.walk(gnv) if isinstance(x, ast.Name) and x.id == gvar and isinstance(x.ctx, ast.Store)]
+    gnv_ok = bool(gguards) and bool(greads) and min(gguards) < greads[0] and not rebinds
+
+    sites = []
+    for n in ast.walk(tree):
+        if isinstance(n, ast.Constant) and n.value in ("const_value",) + CONST_ACCESSORS:
+            raise Untranslatable(f"line {n.lineno}: the name {n.value!r} as a string (getattr?)")
+        if isinstance(n, ast.Name) and n.id in CONST_ACCESSORS and not (isinstance(par.get(n), ast.Call) and par[n].func is n):
+            raise Untranslatable(f"line {n.lineno}: {n.id} used other than by a direct call (alias)")
+        if isinstance(n, ast.Attribute) and n.attr in CONST_ACCESSORS:
+            raise Untranslatable(f"line {n.lineno}: attribute access .{n.attr}")
+        if isinstance(n, ast.Attribute) and n.attr == "const_value" and isinstance(n.ctx, ast.Del):
+            raise Untranslatable(f"line {n.lineno}: del of const_value")
+        kind = cls = None
+        fn = func_of(n)
+        if isinstance(n, ast.Call) and isinstance(n.func, ast.Name) and n.func.id == "_get_numpy_value":
+            kind, cls = "call:_get_numpy_value", ("via-_get_numpy_value" if gnv_ok else "")
+        elif isinstance(n, ast.Call) and isinstance(n.func, ast.Name) and n.func.id == "get_constant_value":
+            kind = "call:get_constant_value"
+            # the local wrapper must be a def in an enclosing function; its own reads are classified below (all must be guarded)
+            defs = [d for a in chain(n) if isinstance(a, ast.FunctionDef) for d in a.body if isinstance(d, ast.FunctionDef) and d.name == "get_constant_value"]
+            cls = "via-guarded-local-wrapper" if len(defs) == 1 else ""
+        elif isinstance(n, ast.Attribute) and n.attr == "const_value" and isinstance(n.ctx, ast.Load):
+            kind, cls = "read:.const_value", ""
+            base = n.value.id if isinstance(n.value, ast.Name) else None
+            if fn is gnv and base == gvar and gnv_ok:
+                cls = "behind-is_graph_input-return"
+            elif base is not None and isinstance(fn, ast.FunctionDef):
+                # (a) inside `if <v> is not None:` with `<v> = _get_numpy_value(<base>, ...)` the statement just before it, same body
+                for a in chain(n):
+                    if a is fn:
+                        break
+                    if isinstance(a, ast.If) and isinstance(a.test, ast.Compare) and isinstance(a.test.left, ast.Name) and len(a.test.ops) == 1 \
+                            and isinstance(a.test.ops[0], ast.IsNot) and isinstance(a.test.comparators[0], ast.Constant) \
+                            and a.test.comparators[0].value is None and any(n is d for s in a.body for d in ast.walk(s)):
+                        v = a.test.left.id
+                        holder = par.get(a)
+                        body = getattr(holder, "body", [])
+                        k = next((i for i, s in enumerate(body) if s is a), None)
+                        prev = body[k - 1] if k else None
+                        if isinstance(prev, ast.Assign) and len(prev.targets) == 1 and isinstance(prev.targets[0], ast.Name) and prev.targets[0].id == v \
+                                and isinstance(prev.value, ast.Call) and isinstance(prev.value.func, ast.Name) and prev.value.func.id == "_get_numpy_value" \
+                                and prev.value.args and isinstance(prev.value.args[0], ast.Name) and prev.value.args[0].id == base and gnv_ok:
+                            cls = "dominated-by-_get_numpy_value-not-None"
+                # (b) process_node: the read ranges over node.inputs and comes after the early return on a graph input among node.inputs
+                if not cls and fn.name == "process_node":
+                    comp = next((a for a in chain(n) if isinstance(a, (ast.GeneratorExp, ast.ListComp))), None)
+                    over_inputs = comp is not None and len(comp.generators) == 1 and ast.unparse(comp.generators[0].iter) == "node.inputs" \
+                        and isinstance(comp.generators[0].target, ast.Name) and comp.generators[0].target.id == base
+                    early = [s for s in fn.body if isinstance(s, ast.If) and ast.unparse(s.test) == "any((x.is_graph_input() for x in node.inputs if x is not None))"
+                             and s.body and isinstance(s.body[-1], ast.Return) and not s.orelse]
+                    top = next((a for a in [n] + chain(n) if par.get(a) is fn), None)
+                    if over_inputs and early and top is not None and early[0].lineno < top.lineno:
+                        cls = "after-graph-input-early-return"
+        if kind is None:
+            continue
+        text = " ".join(ast.unparse(stmt_of(n)).split("\n")[0].split())[:100]
+        sites.append((n.lineno, qual(n), kind, cls, text))
+    sites.sort()
+    # the body of the local wrapper get_constant_value must itself contain only guarded reads
+    for ln, q, kind, cls, text in sites:
+        if kind == "call:get_constant_value" and cls:
+            inner = [s for s in sites if s[1].endswith(".get_constant_value") or s[1] == "get_constant_value"]
+            if not inner or any(not s[3] for s in inner):
+                sites[sites.index((ln, q, kind, cls, text))] = (ln, q, kind, "", text)
+    return sites, gnv_ok
+
+
+def const_reads_text(sites, gnv_ok):
+    """coq/Gen/ConstReads.v"""
+    txt = "(* GENERATED by harness/c03_tables.py from " + SRC + " -- do not edit *)\n"
+    txt += "From Coq Require Import List String.\nImport ListNotations.\nLocal Open Scope string_scope.\n\n"
+    txt += "(* every read of the constant value of an ir.Value in the file: (function, kind, guard class or \"\", reason or \"\") *)\n"
+    rows = []
+    for _ln, q, kind, cls, text in sites:
+        reason = CONST_READ_REASONS.get((q, text), "")
+        rows.append(f"({cstr(q)}, {cstr(kind)}, {cstr(cls)}, {cstr(reason)})")
+    txt += "Definition const_read_sites : list (string * string * string * string) := " + clist(rows) + ".\n"
+    txt += f"Definition numpy_value_guard_precedes_read : bool := {'true' if gnv_ok else 'false'}.\n"
+    # does the data handed to node-level ONNX shape inference go through _get_numpy_value (size_limit=20)?
+    di = [s for s in sites if s[1].endswith("_do_inference.get_constant_value")]
+    through = bool(di) and all(s[3] for s in di) and any(s[2] == "call:_get_numpy_value" for s in di)
+    txt += f"Definition do_inference_reads_through_numpy_value : bool := {'true' if through else 'false'}.\n"
+    lim = None
+    for s in di:
+        if s[2] == "call:_get_numpy_value" and "size_limit=" in s[4]:
+            try:
+                lim = int(s[4].split("size_limit=")[1].split(")")[0].split(",")[0])
+            except ValueError:
+                lim = None
+    txt += f"Definition do_inference_size_limit : nat := {lim if lim is not None else 0}.\n"
+    return txt, through, lim
+
+
+def move_inits_text(tree):
+    """coq/Gen/MoveInits.v: the shape of _move_initializers_to_graph (Opt/MoveInits.v is its model)"""
+    fn = next((n for n in tree.body if isinstance(n, ast.FunctionDef) and n.name == "_move_initializers_to_graph"), None)
+    if fn is None:
+        raise Untranslatable("_move_initializers_to_graph not found")
+    if [a.arg for a in fn.args.args] != ["src", "dst"]:
+        raise Untranslatable("_move_initializers_to_graph: parameters are not (src, dst)")
+    body = [s for s in fn.body if not (isinstance(s, ast.Expr) and isinstance(s.value, ast.Constant))]
+    if len(body) != 2 or ast.unparse(body[0]) not in ("counter: dict[str, int] = {}", "counter = {}") or not isinstance(body[1], ast.For) \
+            or ast.unparse(body[1].target) != "name" or ast.unparse(body[1].iter) != "list(src.initializers)" or body[1].orelse:
+        raise Untranslatable("_move_initializers_to_graph: not `counter = {}` followed by `for name in list(src.initializers)`")
+    loop = body[1].body
+    texts = [ast.unparse(s).split("\n")[0] for s in loop]
+    search = [s for s in loop if isinstance(s, (ast.While, ast.If)) and ast.unparse(s.test) == "new_name in dst.initializers"]
+    if len(search) != 1 or search[0].orelse:
+        raise Untranslatable("_move_initializers_to_graph: no single `new_name in dst.initializers` test")
+    bump = [ast.unparse(x) for x in search[0].body]
+    if bump[:2] != ["counter[name] = counter.get(name, 0) + 1", "new_name = f'{name}_{counter[name]}'"]:
+        raise Untranslatable(f"_move_initializers_to_graph: unknown way of choosing the next name {bump[:2]}")
+    if isinstance(search[0], ast.While) and len(bump) != 2:
+        raise Untranslatable("_move_initializers_to_graph: the while loop does more than bump the name")
+    if texts[0] != "initializer = src.initializers.pop(name)" or texts[1] != "new_name = name" or texts[-1] != "dst.register_initializer(initializer)":
+        raise Untranslatable(f"_move_initializers_to_graph: unexpected loop body {texts}")
+    if "initializer.name = new_name" not in ast.unparse(fn):
+        raise Untranslatable("_move_initializers_to_graph: the moved value is not renamed")
+    loops = isinstance(search[0], ast.While)
+    txt = "(* GENERATED by harness/c03_tables.py from " + SRC + " -- do not edit *)\n"
+    txt += "(* _move_initializers_to_graph: is the fresh-name search a `while new_name in dst.initializers` loop? *)\n"
+    txt += f"Definition fresh_name_search_loops : bool := {'true' if loops else 'false'}.\n"
+    return txt, loops
+
+
 def regenerate(ctx):
     try:
         txt, info = translate(common.REPO)
+        tree = ast.parse(open(os.path.join(common.REPO, SRC)).read())
+        mtxt, loops = move_inits_text(tree)
+        info["move_inits_search_loops"] = loops
+        ctx.gen("MoveInits", mtxt)
+        sites, gnv_ok = const_read_sites(tree)
+        rtxt, through, lim = const_reads_text(sites, gnv_ok)
+        info["const_read_sites"] = sites
+        info["const_reads_unguarded"] = [s for s in sites if not s[3] and not CONST_READ_REASONS.get((s[1], s[4]))]
+        info["do_inference_through_numpy_value"] = through
+        info["do_inference_size_limit"] = lim
+        ctx.gen("ConstReads", rtxt)
     except Untranslatable as e:
         ctx.tie_broken("translator", SRC, str(e))
         return None
